@@ -189,6 +189,9 @@ static void handler(int kind, const void *addr, std::size_t value) {
   case EV_LAZY_LOAD: case EV_LAZY_STORE: case EV_LAZY_DEC:
     main_obj = addr == g_lazy_addr;
     break;
+  case EV_RUN_CUCKOO_HP: case EV_RUN_CUCKOO_RC: case EV_PATH_DEPTH: case EV_PATH_HOP: case EV_PATH_HASH: case EV_DOUBLE_REQ:
+    main_obj = addr == (const void *)g_tbl;
+    break;
   default: break;
   }
   if (!main_obj) {
@@ -437,9 +440,133 @@ static bool lin_search(std::vector<LinOp> &ops, std::vector<char> &done, Map &m,
   return false;
 }
 
+// ------------------------------------------------------------------ K3(ii): the execution as a schedule of critical sections
+// Cuts the recorded trace into lock-holds, orders them by their commit points (first release) and names for each hold the
+// section of lean/Cuckoo/Model/Conc.lean it is an execution of.  One request per line, `request<TAB>expected answer`
+// (`*` = not compared); the last request is the full-state digest of the real table.  Empty string: this execution is
+// not replayed (it contains something the replay does not cover, e.g. stream extraction inside a locked section).
+static std::string g_sec_unsupported;
+static bool g_want_sections = false;
+static std::string sections_text(Tbl &tbl) {
+  struct Hold { int tid = 0, first_rel = -1, opidx = -1; bool in_all = false, access = false, fresh_snapshot = false;
+                std::vector<int> stripes; long depth = -1; uint64_t hop = 0, hash = 0, dbl = 0, snap_hp = 0, snap_rc = 0; bool has_dbl = false; };
+  struct TS { std::set<std::pair<int,int>> held; Hold cur; bool active = false, in_all = false, hp_loaded = true; int opidx = -1;
+              uint64_t snap_hp = 0, snap_rc = 0, dbl = 0; bool has_dbl = false; };
+  std::vector<TS> ts(MAXT);
+  std::vector<Hold> holds;
+  for (int i = 0; i < (int)S.trace.size(); ++i) {
+    auto &e = S.trace[i];
+    if (e.tid < 0 || e.tid >= MAXT) continue;
+    TS &t = ts[e.tid];
+    switch (e.kind) {
+    case 100: t.opidx = e.a; t.hp_loaded = true; t.has_dbl = false; break;
+    case EV_HP_LOAD: if (e.a == 0 && !t.active) t.hp_loaded = true; break;
+    case EV_LOCKALL_BEGIN: t.in_all = true; break;
+    case EV_LOCKALL_END: t.in_all = false; break;
+    case EV_RUN_CUCKOO_HP: t.snap_hp = e.v; break;
+    case EV_RUN_CUCKOO_RC: t.snap_rc = e.v; break;
+    case EV_DOUBLE_REQ: t.dbl = e.v; t.has_dbl = true; break;
+    case EV_LOCK_ACQ:
+      if (!t.active) {
+        t.active = true; t.cur = Hold(); t.cur.tid = e.tid; t.cur.opidx = t.opidx; t.cur.in_all = t.in_all;
+        t.cur.fresh_snapshot = t.hp_loaded; t.hp_loaded = false;
+        t.cur.dbl = t.dbl; t.cur.has_dbl = t.has_dbl; t.held.clear();
+      }
+      t.held.insert({e.a, e.b}); t.cur.stripes.push_back(e.b);
+      break;
+    case EV_UNLOCK:
+      if (t.active) {
+        if (t.cur.first_rel < 0) t.cur.first_rel = i;
+        t.held.erase({e.a, e.b});
+        if (t.held.empty()) { t.cur.snap_hp = t.snap_hp; t.cur.snap_rc = t.snap_rc; holds.push_back(t.cur); t.active = false; }
+      }
+      break;
+    case EV_BUCKET_ACCESS: case EV_FUNCTOR: case EV_LOCK_META: case EV_BUCKETS_REPLACE: case EV_HP_STORE:
+      if (t.active) t.cur.access = true; break;
+    case EV_PATH_DEPTH: if (t.active) t.cur.depth = (long)e.v; break;
+    case EV_PATH_HOP: if (t.active) t.cur.hop = e.v; break;
+    case EV_PATH_HASH: if (t.active) t.cur.hash = e.v; break;
+    default: break;
+    }
+  }
+  for (auto &t : ts) if (t.active) return "";   // a hold that never ended (deadlock): nothing to replay
+  std::stable_sort(holds.begin(), holds.end(), [](const Hold &a, const Hold &b) { return a.first_rel < b.first_rel; });
+  std::string out;
+  char buf[256];
+  uint64_t mb; memcpy(&mb, &g_mlf, 8);
+  snprintf(buf, sizeof buf, "m cfg %d %d 1 1 40 %d 1\t*\nm new 0 %zu\t*\nm setmlf 0 %llu\t*\n", (int)VH_S, (int)LIBCUCKOO_VERIF_MAX_NUM_LOCKS, g_hash_mode, g_init_n, (unsigned long long)mb);
+  out += buf;
+  for (auto &kv : g_prefill) out += "m insert 0 " + std::to_string(kv.first) + " " + std::to_string(kv.second) + "\t*\n";
+  auto lookup_kind = [](const std::string &k) { return k == "find" || k == "update" || k == "erase" || k == "updatefn" || k == "erasefn"; };
+  auto insert_kind = [](const std::string &k) { return k == "insert" || k == "ioa" || k == "upsert"; };
+  std::map<std::pair<int,int>, int> last_hold;   // (thread, call) -> first_rel of its last effective hold
+  for (auto &h : holds) if (h.access || h.in_all) last_hold[{h.tid, h.opidx}] = h.first_rel;
+  for (auto &h : holds) {
+    if (!h.access && !h.in_all) continue;    // e.g. a first lock whose validation failed: released without touching anything
+    if (h.opidx < 0 || h.opidx >= (int)g_prog[h.tid].size()) return "";
+    const Op &o = g_prog[h.tid][h.opidx];
+    const std::string res = g_res[h.tid][h.opidx].res;
+    const std::string fin = last_hold[{h.tid, h.opidx}] == h.first_rel ? res : std::string("none");   // what this hold's section must answer
+    std::string ab = std::to_string(o.a) + " " + std::to_string(o.b);
+    if (h.in_all) {
+      if (o.kind == "section") {
+        out += "m lock 0\t*\n";
+        for (auto &x : o.body) {
+          if (x.kind == "ltinsert") out += "m ltinsert 0 " + std::to_string(x.a) + " " + std::to_string(x.b) + "\t*\n";
+          else if (x.kind == "lterase") out += "m lterase 0 " + std::to_string(x.a) + "\t*\n";
+          else if (x.kind == "ltfind") out += "m ltfind 0 " + std::to_string(x.a) + "\t*\n";
+          else if (x.kind == "ltrehash") out += "m rehash 0 " + std::to_string(x.a) + "\t*\n";
+          else if (x.kind == "ltreserve") out += "m reserve 0 " + std::to_string(x.a) + "\t*\n";
+          else if (x.kind == "ltclear") out += "m clear 0\t*\n";
+          else if (x.kind == "ltsize") out += "m stats 0\t*\n";
+          else { g_sec_unsupported = x.kind; return ""; }
+        }
+        out += "m unlock 0\t*\n";
+      } else if (o.kind == "rehash") out += "m sec expand " + std::to_string(o.a) + "\tunit\n";   // the pre-check n == hashpower() is an unlocked read
+      else if (o.kind == "reserve") {
+        size_t want = 0; while ((size_t(1) << want) * Tbl::slot_per_bucket() < o.a) ++want;
+        out += "m sec expand " + std::to_string(want) + "\tunit\n";
+      }
+      else if (o.kind == "clear") out += "m sec clear\tunit\n";
+      else if (insert_kind(o.kind) && h.has_dbl) out += "m sec double " + std::to_string(h.dbl) + "\t" + (res.rfind("E:", 0) == 0 ? res : std::string("none")) + "\n";
+      else return "";
+      continue;
+    }
+    if (h.depth >= 0) {
+      if (!insert_kind(o.kind)) return "";
+      uint64_t fb = h.hop >> 40, fs = (h.hop >> 32) & 0xff, tb = (h.hop >> 8) & 0xffffff, tsl = h.hop & 0xff;
+      std::string snap = std::to_string(h.snap_hp) + " " + std::to_string(h.snap_rc);
+      if (h.depth == 0)
+        out += "m sec last " + o.kind + " " + ab + " " + snap + " " + std::to_string(fb) + " " + std::to_string(fs) + " 0\t" + fin + "\n";
+      else if (h.depth == 1)
+        out += "m sec last " + o.kind + " " + ab + " " + snap + " " + std::to_string(fb) + " " + std::to_string(fs) + " " + std::to_string(h.hash) + " " +
+               std::to_string(tb) + " " + std::to_string(tsl) + "\t" + fin + "\n";
+      else
+        out += "m sec hop " + snap + " " + std::to_string(fb) + " " + std::to_string(fs) + " " + std::to_string(h.hash) + " " + std::to_string(tb) + " " + std::to_string(tsl) + "\tnone\n";
+      continue;
+    }
+    if (lookup_kind(o.kind)) { out += "m sec lookup " + o.kind + " " + ab + "\t" + res + "\n"; continue; }
+    if (insert_kind(o.kind)) {
+      if (h.fresh_snapshot) out += "m sec instry " + o.kind + " " + ab + "\t" + fin + "\n";
+      else {
+        out += "m sec lock";
+        std::set<int> seen;
+        for (int st : h.stripes) if (seen.insert(st).second) out += " " + std::to_string(st);
+        out += "\tnone\n";
+      }
+      continue;
+    }
+    return "";
+  }
+  // the oracles of execute() took lock_table() once for the final scan (pending migration finished, old array released)
+  out += "m lock 0\t*\nm unlock 0\t*\n";
+  out += "m digest 0\t" + digest(tbl) + "\n";
+  return out;
+}
+
 // ------------------------------------------------------------------ one execution
 struct ExecOut { bool ok = true; std::string why; std::vector<int> choices; size_t events = 0; std::string history;
-                 std::string lin; bool lin_accepted = false; };
+                 std::string lin; bool lin_accepted = false; std::string sections; };
 
 static const char *evname(int k) {
   switch (k) {
@@ -620,6 +747,7 @@ static ExecOut execute(uint64_t seed, int mode, int preempts, const std::vector<
     }
     *trace_out = s;
   }
+  if (out.ok && g_want_sections) { my_tid = -1; out.sections = sections_text(tbl); }
   g_tbl = nullptr;
   return out;
 }
@@ -692,18 +820,22 @@ int main() {
       int mode, pre; uint64_t seed0; long count; std::string opt, ppath; long pevery = 1;
       is >> mode >> pre >> seed0 >> count >> opt;
       FILE *pf = nullptr;
-      if (opt == "ptrace") { is >> ppath >> pevery; pf = fopen(ppath.c_str(), "a"); if (pevery < 1) pevery = 1; }
+      FILE *sf = nullptr;
+      if (opt == "ptrace") { is >> ppath >> pevery; pf = fopen(ppath.c_str(), "a"); sf = fopen((ppath + ".sec").c_str(), "a"); if (pevery < 1) pevery = 1; }
+      g_want_sections = sf != nullptr;
       long bad = 0, bad_obs = 0; size_t events = 0; std::string first_why, first_hist, first_choices, trace, first_lin;
       uint64_t first_seed = 0;
       bool first_is_obs = false;
       for (long i = 0; i < count; ++i) {
         std::string tr;
+        g_want_sections = sf != nullptr && i % pevery == 0;
         ExecOut o = execute(seed0 + i, mode, pre, {}, opt == "trace" && i == 0, &tr);
         if (opt == "trace" && i == 0) trace = tr;
         if (pf && i % pevery == 0) {
           std::string pt = ptrace_text(); fwrite(pt.data(), 1, pt.size(), pf);
           // a history the C++ search accepted: the verified checker must accept it too
           if (o.lin_accepted && !o.lin.empty()) { fwrite(o.lin.data(), 1, o.lin.size(), pf); fputc('\n', pf); }
+          if (sf && !o.sections.empty()) { fputs("X begin\n", sf); fwrite(o.sections.data(), 1, o.sections.size(), sf); fputs("X end\n", sf); }
         }
         events += o.events;
         if (!o.ok) {
@@ -722,6 +854,8 @@ int main() {
       printf("{\"runs\":%ld,\"bad\":%ld,\"bad_observable\":%ld,\"events\":%zu,\"first_seed\":%llu,\"why\":\"%s\",\"history\":\"%s\",\"choices\":\"%s\"", count, bad, bad_obs, events,
              (unsigned long long)first_seed, jesc(first_why).c_str(), jesc(first_hist).c_str(), first_choices.c_str());
       if (pf) fclose(pf);
+      if (sf) fclose(sf);
+      g_want_sections = false;
       if (opt == "trace") printf(",\"trace\":\"%s\"", jesc(trace).c_str());
       if (!first_lin.empty()) printf(",\"lin\":\"%s\"", jesc(first_lin).c_str());
       printf("}\n");
